@@ -5,6 +5,9 @@ CONSTANTS
   KeyPlans <- OneCallPlans
   ZeroKeySets <- AnyZeroKeys
   PanicKeySets <- OnePanicKey
-INVARIANTS TypeOK OnceOnly ExactlyOnce NoRetryAfterPanic OnePanicPerKey NoFaultNoStuck SameResult WaitsOnlyOnSameKey IndependentKeys TokenConservation ClosedImpliesCached OneLoaderPerKey LoaderKeyOK
+  Dep <- NoDeps
+  NCPU = 16
+  Limiter = FALSE
+INVARIANTS TypeOK OnceOnly ExactlyOnce NoRetryAfterPanic OnePanicPerKey NoFaultNoStuck SameResult WaitsOnlyOnSameKey IndependentKeys TokenConservation ClosedImpliesCached OneLoaderPerKey LoaderKeyOK NestedSameResult
 PROPERTIES MapStable Termination EveryGetReturns AbsSpec
 CHECK_DEADLOCK FALSE
